@@ -162,6 +162,20 @@ func (e *FnEnc) inMapRange(b *ssa.BasicBlock) bool {
 	return false
 }
 
+// mapRangeHeader: b is the header of a loop that ranges over a map.
+func (e *FnEnc) mapRangeHeader(b *ssa.BasicBlock) bool {
+	for _, in := range b.Instrs {
+		if nx, ok := in.(*ssa.Next); ok && !nx.IsString {
+			if r, ok := nx.Iter.(*ssa.Range); ok {
+				if _, isMap := r.X.Type().Underlying().(*types.Map); isMap {
+					return true
+				}
+			}
+		}
+	}
+	return false
+}
+
 // bagInit computes the fixpoint of the discipline's transfer function over the control-flow graph (a plain forward
 // data-flow analysis: join = union, sorts kill), so that loop-header states are exact for the encoding pass.
 func (e *FnEnc) bagInit() {
